@@ -198,9 +198,9 @@ Theorem C05_loop_terminates : forall f s resolved u, (S u <= f)%nat ->
 Proof. exact loop_terminates. Qed.
 Print Assumptions C05_loop_terminates.
 
-(* an exception that eval_expressions answers -- E_Fuel included -- was raised by an insert_literal call *)
+(* an exception that eval_expressions answers -- E_Fuel included -- was raised by an insert_result call *)
 Theorem C05_loop_raise : forall s e, eval_expressions s = Some (Raise e) ->
-  exists fuel ph v d, insert_literal fuel ph v d = Raise e.
+  exists fuel ph v d, insert_result fuel ph v d = Raise e.
 Proof. exact eval_expressions_raise. Qed.
 Print Assumptions C05_loop_raise.
 
@@ -234,16 +234,18 @@ Proof.
   - vm_compute in Er. inversion Er; subst resolved u. vm_compute in El. discriminate.
 Qed.
 
-(* why C05_loop_raise is stated that way: an unresolvable expression that mentions its own placeholder makes the
-   write-back loop of insert_literal run for ever (the model answers E_Fuel) *)
-Example C05_loop_raise_nonvacuous :
+(* the document on which the unrepaired library did not terminate: an unresolvable expression that mentions its own
+   placeholder.  The repaired write-back loop (insert_result) stops after the insertion; the text is written back. *)
+Example C05_former_hang :
   let s := mkSD [(KS (of_string "a"), Leaf (SStr (ph_of 0)))] [] [] []
                 [(0%N, (of_string "$EXPRESSION000000 + 1", ph_of 0))] in
-  eval_expressions s = Some (Raise E_Fuel) /\ exists fuel ph v d, insert_literal fuel ph v d = Raise E_Fuel.
-Proof.
-  intro s. assert (H : eval_expressions s = Some (Raise E_Fuel)) by (vm_compute; reflexivity).
-  exact (conj H (C05_loop_raise s E_Fuel H)).
-Qed.
+  eval_expressions s =
+  Some (Ok (mkSD [(KS (of_string "a"), Leaf (SStr (of_string "$EXPRESSION000000 + 1")))] [] [] [] [])) /\
+  (let fs : fsys := [(of_string "/w/root", FNative (of_string "a ""$EXPRESSION000000 + 1"";
+"))] in
+   read_full fs (of_string "/w/root") true (-1) =
+   Some (Ok (mkSD [(KS (of_string "a"), Leaf (SStr (of_string "$EXPRESSION000000 + 1")))] [] [] [] [], 0%Z))).
+Proof. vm_compute. split; reflexivity. Qed.
 
 (* ---- 3. references that cannot be resolved ------------------------------------------------------------- *)
 (* every pending expression has a dollar sign and refers to undeclared names only: the result is the input with every
@@ -261,7 +263,7 @@ Theorem C05_unresolved_kept_one : forall d lc bc inc key e ph,
   has_char c_dollar e = true ->
   Forall (fun r => alookup (KS (ref_name r)) (variables_of (mkSD d lc bc inc [(key, (e, ph))])) = None) (expr_refs_of e) ->
   eval_expressions (mkSD d lc bc inc [(key, (e, ph))]) =
-  Some (match insert_literal (S (count_leaves (Dict d))) ph (Leaf (SStr e)) (Dict d) with
+  Some (match insert_result (S (count_leaves (Dict d))) ph (Leaf (SStr e)) (Dict d) with
         | Ok (Dict d') => Ok (mkSD d' lc bc inc [])
         | Ok _ => Ok (mkSD d lc bc inc [])
         | Raise er => Raise er
@@ -510,7 +512,8 @@ Qed.
 
 (* the general flat result: whatever cannot be evaluated is written back as its text with the references resolved by
    then replaced ([final_data]); the values are the final ones of the direct evaluation.  [names_free]: no referenced
-   name contains the word EXPRESSION (else the write-back may not terminate, see C05_loop_raise_nonvacuous) *)
+   name contains the word EXPRESSION (else the text of one expression may contain the placeholder of another one and
+   be overwritten in its place, see C05_names_free_needed; termination does not need it: C05_flat_terminates) *)
 Theorem C05_flat_result : forall d lc bc inc, fdoc_ok d -> names_free d ->
   exists m, (forall n x v, know d n x = Some v -> know d (S (S m)) x = Some v) /\
     eval_expressions (flat_sdict d lc bc inc) =
@@ -639,3 +642,124 @@ Example C05_bare_reference_instance :
                  [] [] [] [])) /\
   map (fun xv => denote d (fst xv)) d = [Some 6%Z; Some 3%Z; Some 3%Z; Some 3%Z; Some 2%Z; Some 6%Z].
 Proof. vm_compute. split; reflexivity. Qed.
+
+(* ================================================================================================ *)
+(* The re-insertion loop of the repaired _eval_expressions (insert_result) terminates                *)
+(* ================================================================================================ *)
+(* [bad ph t]: the number of leaves of t whose text contains ph.  With the fuel the model gives it insert_result never
+   answers E_Fuel on well formed data (unique keys) when the value spells the placeholder (one round) or none of its
+   leaves contains it (every round removes one such leaf of the data and adds none) *)
+Theorem C05_insert_terminates : forall ph v d, wf d = true -> wf v = true ->
+  (contains ph (py_str_tree v) = true \/ bad ph v = 0%nat) ->
+  insert_result (S (count_leaves d)) ph v d <> Raise E_Fuel.
+Proof. exact insert_terminates. Qed.
+Print Assumptions C05_insert_terminates.
+
+(* the condition on the value holds for every leaf value ... *)
+Theorem C05_insert_terminates_leaf : forall ph s d, wf d = true ->
+  insert_result (S (count_leaves d)) ph (Leaf s) d <> Raise E_Fuel.
+Proof. exact insert_terminates_leaf. Qed.
+Print Assumptions C05_insert_terminates_leaf.
+
+(* ... and for every value when the placeholder consists of printable characters other than quotes and the backslash
+   (repr leaves those alone, so a value with a leaf that contains the placeholder spells it) *)
+Theorem C05_insert_terminates_plain : forall ph v d, wf d = true -> wf v = true -> plain_ph ph = true ->
+  insert_result (S (count_leaves d)) ph v d <> Raise E_Fuel.
+Proof. exact insert_terminates_plain. Qed.
+Print Assumptions C05_insert_terminates_plain.
+
+Example C05_insert_terminates_nonvacuous :
+  let ph := ph_of 7 in
+  let d := Dict [(KS (of_string "a"), Leaf (SStr ph)); (KS (of_string "l"), Lst [Leaf (SInt 1); Leaf (SStr (of_string "x" ++ ph))]);
+                 (KS (of_string "s"), Dict [(KS (of_string "b"), Leaf (SStr ph))])] in
+  let v := Lst [Leaf (SStr (of_string "p'q")); Leaf (SInt 2)] in
+  let w := Leaf (SStr (of_string "$" ++ ph ++ of_string " + 1")) in
+  wf d = true /\ wf v = true /\ plain_ph ph = true /\ bad ph d = 3%nat /\ bad ph v = 0%nat /\
+  contains ph (py_str_tree w) = true /\
+  insert_result (S (count_leaves d)) ph v d <> Raise E_Fuel /\
+  insert_result (S (count_leaves d)) ph w d <> Raise E_Fuel /\
+  insert_result (S (count_leaves d)) ph v d =
+    Ok (Dict [(KS (of_string "a"), v); (KS (of_string "l"), Lst [Leaf (SInt 1); v]); (KS (of_string "s"), Dict [(KS (of_string "b"), v)])]) /\
+  insert_result (S (count_leaves d)) ph w d =
+    Ok (Dict [(KS (of_string "a"), w); (KS (of_string "l"), Lst [Leaf (SInt 1); Leaf (SStr (of_string "x" ++ ph))]);
+              (KS (of_string "s"), Dict [(KS (of_string "b"), Leaf (SStr ph))])]).
+Proof.
+  intros ph d v w.
+  assert (H1 : wf d = true) by (vm_compute; reflexivity). assert (H2 : wf v = true) by reflexivity.
+  assert (H3 : plain_ph ph = true) by (vm_compute; reflexivity).
+  assert (H4 : contains ph (py_str_tree w) = true) by (vm_compute; reflexivity).
+  refine (conj H1 (conj H2 (conj H3 (conj _ (conj _ (conj H4 (conj (C05_insert_terminates_plain ph v d H1 H2 H3)
+            (conj (C05_insert_terminates ph w d H1 eq_refl (or_introl H4)) (conj _ _))))))))); vm_compute; reflexivity.
+Qed.
+
+(* the side conditions are needed.  (1) The value is a list whose leaf contains the placeholder although its repr does
+   not spell it (the placeholder is a line feed, the repr shows backslash n): every round nests the value one level
+   deeper; the library ends in RecursionError (set_global_key's depth guard, E_Recursion with enough fuel), the
+   model's fuel runs out first.  (2) Duplicate keys (not a Python dict): the key found is not the key written. *)
+Example C05_insert_terminates_conditions :
+  (let ph := [c_lf] in let v := Lst [Leaf (SStr [c_lf])] in let d := Dict [(KS (of_string "a"), Leaf (SStr [c_lf]))] in
+   wf d = true /\ wf v = true /\ contains ph (py_str_tree v) = false /\ bad ph v = 1%nat /\ plain_ph ph = false /\
+   insert_result (S (count_leaves d)) ph v d = Raise E_Fuel /\ insert_result 30 ph v d = Raise E_Recursion) /\
+  (let ph := of_string "P" in let v := Leaf (SInt 7) in
+   let d := Dict [(KS (of_string "k"), Leaf (SInt 1)); (KS (of_string "k"), Leaf (SStr (of_string "P")))] in
+   wf d = false /\ insert_result (S (count_leaves d)) ph v d = Raise E_Fuel).
+Proof. vm_compute. repeat split; reflexivity. Qed.
+
+(* eval_expressions never answers E_Fuel: [good_sd s] = the data has unique keys at every level and the placeholders
+   of the expressions table consist of ordinary characters.  With C05_loop_terminates (the loop's own fuel is never
+   the reason for stopping) this is: on such an SDict no fuel of the model is ever exhausted. *)
+Theorem C05_never_fuel : forall s, good_sd s -> eval_expressions s <> Some (Raise E_Fuel).
+Proof. exact eval_expressions_no_fuel. Qed.
+Print Assumptions C05_never_fuel.
+
+Example C05_never_fuel_nonvacuous :
+  let s := mkSD [(KS (of_string "a"), Leaf (SStr (ph_of 0)));
+                 (KS (of_string "x"), Lst [Leaf (SInt 5); Leaf (SStr (of_string "six"))]);
+                 (KS (of_string "b"), Leaf (SStr (ph_of 1))); (KS (of_string "c"), Leaf (SStr (ph_of 2)))] [] [] []
+                [(0%N, (of_string "$EXPRESSION000000 + $c", ph_of 0)); (1%N, (of_string "$x", ph_of 1));
+                 (2%N, (of_string "$x[0] * 2", ph_of 2))] in
+  good_sd s /\ eval_expressions s <> Some (Raise E_Fuel) /\
+  eval_expressions s =
+  Some (Ok (mkSD [(KS (of_string "a"), Leaf (SStr (of_string "$EXPRESSION000000 + 10")));
+                  (KS (of_string "x"), Lst [Leaf (SInt 5); Leaf (SStr (of_string "six"))]);
+                  (KS (of_string "b"), Lst [Leaf (SInt 5); Leaf (SStr (of_string "six"))]); (KS (of_string "c"), Leaf (SInt 10))] [] [] [] [])).
+Proof.
+  intro s. assert (H : good_sd s).
+  { split; [vm_compute; reflexivity|]. cbn [s sd_expr]. repeat (constructor; [vm_compute; reflexivity|]). constructor. }
+  refine (conj H (conj (C05_never_fuel s H) _)). vm_compute. reflexivity.
+Qed.
+
+(* the line-feed placeholder again, now inside an SDict: without [good_sd] the model does answer E_Fuel *)
+Example C05_never_fuel_condition :
+  let s := mkSD [(KS (of_string "a"), Leaf (SStr [c_lf])); (KS (of_string "x"), Lst [Leaf (SStr [c_lf])])] [] [] []
+                [(0%N, (of_string "$x", [c_lf]))] in
+  wf (Dict (sd_data s)) = true /\ plain_ph [c_lf] = false /\ eval_expressions s = Some (Raise E_Fuel).
+Proof. vm_compute. repeat split; reflexivity. Qed.
+
+(* flat documents: reading terminates normally whatever the referenced names are *)
+Theorem C05_flat_terminates : forall d lc bc inc, fdoc_ok d ->
+  exists s', eval_expressions (flat_sdict d lc bc inc) = Some (Ok s') /\ sd_expr s' = [] /\
+             map fst (sd_data s') = map KS (map fst d).
+Proof. exact flat_terminates. Qed.
+Print Assumptions C05_flat_terminates.
+
+(* [names_free] is still needed for the VALUES: j = "$EXPRESSION000001 + 1" (unresolvable; its text contains the
+   placeholder of the next expression), i = "$zz".  Reading terminates, but writing back i's text overwrites j as well *)
+Definition ex_doc_ji : fdoc :=
+  [ (of_string "j", FExp 0 g_tight (AAdd (ex_rv "EXPRESSION000001") (ANum 1)));
+    (of_string "i", FExp 1 g_tight (APos (ex_rv "zz"))) ].
+Example C05_names_free_needed :
+  fdoc_ok ex_doc_ji /\
+  (exists s', eval_expressions (flat_sdict ex_doc_ji [] [] []) = Some (Ok s') /\ sd_expr s' = [] /\
+              map fst (sd_data s') = map KS (map fst ex_doc_ji)) /\
+  eval_expressions (flat_sdict ex_doc_ji [] [] []) =
+  Some (Ok (mkSD [(KS (of_string "j"), Leaf (SStr (of_string "+$zz"))); (KS (of_string "i"), Leaf (SStr (of_string "+$zz")))]
+                 [] [] [] [])) /\
+  ~ names_free ex_doc_ji.
+Proof.
+  assert (Hok : fdoc_ok ex_doc_ji) by (unfold ex_doc_ji; fdoc_ok_tac).
+  refine (conj Hok (conj (C05_flat_terminates ex_doc_ji [] [] [] Hok) (conj _ _))).
+  - vm_compute. reflexivity.
+  - intro H. specialize (H (of_string "j") 0%N g_tight (AAdd (ex_rv "EXPRESSION000001") (ANum 1)) (or_introl eq_refl)).
+    cbn [ex_rv avars app] in H. inversion H as [|? ? H1 _]. vm_compute in H1. discriminate.
+Qed.
